@@ -46,6 +46,7 @@ fn main() {
         "C11" => push(&mut rep, mcx::e4::c11(progs::PROGS, &decls, if quick { 3 } else { 4 }, 6)),
         "C12" => push(&mut rep, mcx::e4::c12(progs::PROGS, &decls, if quick { 2 } else { 3 })),
         "C16" => push(&mut rep, mcx::e4::c09(progs::PROGS, &decls, 3)),
+        "C15" => push(&mut rep, mcx::e4::c15(progs::PROGS, &decls, if quick { 3 } else { 4 })),
         _ => {
             eprintln!("unknown property {}", prop);
             std::process::exit(2);
